@@ -111,4 +111,71 @@ theorem timeoutOnCloseV1_ok {s s' : ChainState} {env : Env} {p : PacketV1} {nsr 
     subst_vars
     exact ⟨_, by assumption, by assumption, rfl⟩
 
+/-! ### IBC v2 -/
+
+theorem sendPacketV2_ok {s s' : ChainState} {env : Env} {src : Id} {tt seq : Nat} {payloads : List Payload}
+    (h : sendPacketV2 s env src tt payloads = .ok (s', seq)) :
+    ∃ cp, s.cpV2.get src = some cp ∧ s.nextSend.get src = some seq ∧
+      s' = { s with nextSend := s.nextSend.set src (seq + 1),
+                    commitV2 := s.commitV2.set (src, seq) ⟨cp.1, tt, payloads⟩ } := by
+  unfold sendPacketV2 at h
+  simp only at h
+  esplit h
+  simp only [Except.ok.injEq, Prod.mk.injEq] at h
+  obtain ⟨h1, h2⟩ := h
+  subst h2
+  exact ⟨_, by assumption, by assumption, h1.symm⟩
+
+theorem recvPacketV2_ok {s s' : ChainState} {env : Env} {p : PacketV2}
+    (h : recvPacketV2 s env p = .ok s') :
+    s.cpV2.get p.dst ≠ none ∧ s.receiptV2.get (p.dst, p.seq) = none ∧
+      s' = { s with receiptV2 := s.receiptV2.set (p.dst, p.seq) () } := by
+  unfold recvPacketV2 at h
+  esplit h
+  simp only [Except.ok.injEq] at h
+  refine ⟨by simp_all, ?_, h.symm⟩
+  rw [← has_false_iff]; simp_all
+
+theorem writeAckV2_ok {s s' : ChainState} {p : PacketV2} {acks : List Hex}
+    (h : writeAckV2 s p acks = .ok s') :
+    ackValidV2 acks = true ∧ (ackSuccessV2 acks = true → acks.length = p.payloads.length) ∧
+      s.ackV2.get (p.dst, p.seq) = none ∧ s.receiptV2.get (p.dst, p.seq) ≠ none ∧
+      s' = { s with ackV2 := s.ackV2.set (p.dst, p.seq) acks } := by
+  unfold writeAckV2 at h
+  esplit h
+  simp only [Except.ok.injEq] at h
+  refine ⟨by simp_all, by simp_all, ?_, ?_, h.symm⟩
+  · rw [← has_false_iff]; simp_all
+  · rw [← has_iff]; simp_all
+
+theorem asyncWriteAckV2_ok {s s' : ChainState} {dst : Id} {seq : Nat} {acks : List Hex}
+    (h : asyncWriteAckV2 s dst seq acks = .ok s') :
+    ∃ p s1, s.asyncV2.get (dst, seq) = some p ∧ writeAckV2 s p acks = .ok s1 ∧
+      s' = { s1 with asyncV2 := s1.asyncV2.del (dst, seq) } := by
+  unfold asyncWriteAckV2 at h
+  esplit h
+  simp only [Except.ok.injEq] at h
+  exact ⟨_, _, by assumption, by assumption, h.symm⟩
+
+theorem acknowledgePacketV2_ok {s s' : ChainState} {env : Env} {p : PacketV2}
+    (h : acknowledgePacketV2 s env p = .ok s') :
+    s.cpV2.get p.src ≠ none ∧ s.commitV2.get (p.src, p.seq) = some p.commit ∧
+      s' = { s with commitV2 := s.commitV2.del (p.src, p.seq) } := by
+  unfold acknowledgePacketV2 at h
+  esplit h
+  simp only [ne_eq, Decidable.not_not, Except.ok.injEq] at *
+  subst_vars
+  exact ⟨by simp_all, by assumption, rfl⟩
+
+theorem timeoutPacketV2_ok {s s' : ChainState} {env : Env} {p : PacketV2}
+    (h : timeoutPacketV2 s env p = .ok s') :
+    s.cpV2.get p.src ≠ none ∧ s.commitV2.get (p.src, p.seq) = some p.commit ∧
+      s' = { s with commitV2 := s.commitV2.del (p.src, p.seq) } := by
+  unfold timeoutPacketV2 at h
+  simp only at h
+  esplit h
+  simp only [ne_eq, Decidable.not_not, Except.ok.injEq] at *
+  subst_vars
+  exact ⟨by simp_all, by assumption, rfl⟩
+
 end IbcVerif.Chain
